@@ -378,18 +378,25 @@ func Shrink(p *Property, vals []uint64, tier string, index uint64, fp string, ma
 
 // Main is the entry point of a worker binary.
 func Main(p *Property) {
-	seed := flag.Uint64("seed", 1, "")
-	from := flag.Uint64("from", 0, "")
-	to := flag.Uint64("to", 0, "")
-	tier := flag.String("tier", "quick", "")
-	out := flag.String("out", "", "")
-	hashes := flag.String("hashes", "", "")
-	replay := flag.String("replay", "", "")
-	_ = flag.Bool("noshrink", false, "ignored (kept for compatibility)")
-	shrink := flag.String("shrink", "", "minimise the tape of this replay file")
-	plan := flag.Bool("plan", false, "emit the number of cases of the tier and exit")
-	digest := flag.Bool("digest", false, "emit a per-case digest line (determinism self-test)")
-	flag.Parse()
+	// a test binary (C19) cannot take foreign flags: it gets them through
+	// the environment
+	fs := flag.NewFlagSet("worker", flag.ExitOnError)
+	args := os.Args[1:]
+	if env := os.Getenv("VERIF_WORKER_ARGS"); env != "" {
+		args = strings.Split(env, "\x1f")
+	}
+	seed := fs.Uint64("seed", 1, "")
+	from := fs.Uint64("from", 0, "")
+	to := fs.Uint64("to", 0, "")
+	tier := fs.String("tier", "quick", "")
+	out := fs.String("out", "", "")
+	hashes := fs.String("hashes", "", "")
+	replay := fs.String("replay", "", "")
+	_ = fs.Bool("noshrink", false, "ignored (kept for compatibility)")
+	shrink := fs.String("shrink", "", "minimise the tape of this replay file")
+	plan := fs.Bool("plan", false, "emit the number of cases of the tier and exit")
+	digest := fs.Bool("digest", false, "emit a per-case digest line (determinism self-test)")
+	fs.Parse(args)
 	if *out == "" {
 		fmt.Fprintln(os.Stderr, "worker: -out required")
 		os.Exit(2)
